@@ -1,6 +1,10 @@
 //! `intern` gives the String intern library combined with Bump allocator.
 
-use std::{collections::HashMap, fmt::Debug, hash::Hash, iter::FusedIterator, marker::PhantomData};
+#[cfg(okane_verif)]
+use crate::verif::{hash_map, HashMap};
+#[cfg(not(okane_verif))]
+use std::collections::{hash_map, HashMap};
+use std::{fmt::Debug, hash::Hash, iter::FusedIterator, marker::PhantomData};
 
 use bumpalo::Bump;
 
@@ -195,7 +199,7 @@ impl<'arena, T: FromInterned<'arena>> InternStore<'arena, T> {
 /// Compared to the underlying HashSet iterator,
 /// this struct ensures the `T` type.
 pub struct Iter<'arena, 'container, T> {
-    base: std::collections::hash_map::Iter<'container, &'arena str, Option<InternedStr<'arena>>>,
+    base: hash_map::Iter<'container, &'arena str, Option<InternedStr<'arena>>>,
     phantom: PhantomData<T>,
 }
 
